@@ -5,6 +5,7 @@ import json
 import vlib
 
 KEYS = ["a", "b", "c", "d"]
+WILD = ["*", "?", "a*", "c*", "?og", "*a*", "c?t", "**", "*?"]
 STRS = ["", "a", "b", "cat", "dog", "a b", "xé", "zz", "c*", "*", "?og"]   # [1:5] are used as literals; pattern-like ones only occur in documents
 INTS = [0, 1, 2, 3, -1, -2, 5, 10, 7, 100, 9007199254740992]   # in documents: exactly representable in binary64 (JSON reader goes through float64: C06)
 LIT_INTS = INTS + [9007199254740993, 9007199254740991]          # in expression literals: compared exactly as int64
@@ -317,6 +318,7 @@ class Gen:
         self.rng = rng
         self.ro_only = ro_only
         self.doc = None
+        self.wild = 0.0      # probability of glob patterns (* ?) in key steps and string literals
 
     def set_doc(self, doc):
         self.doc = doc
@@ -359,7 +361,7 @@ class Gen:
             elif r < 0.85:
                 step = ("index", ("self",), None)
             elif r < 0.93:
-                step = ("index", ("self",), lit(rng.choice(KEYS)))
+                step = ("index", ("self",), lit(rng.choice(WILD if rng.random() < self.wild else KEYS)))
             else:
                 step = ("slice", ("self",), lit(rng.choice([0, 1, -2])), lit(rng.choice([1, 2, 3, -1])))
             e = step if e is None else ("pipe", e, step)
@@ -369,6 +371,8 @@ class Gen:
         rng = self.rng
         r = rng.random()
         if r < 0.35:
+            if rng.random() < self.wild:
+                return lit(rng.choice(WILD + STRS[3:5]))
             return lit(rng.choice(LIT_INTS + STRS[1:5] + [None, True, False]))
         if r < 0.75 or d <= 0:
             return self.path(d)
@@ -416,6 +420,13 @@ class Gen:
             return ("pipe", sub(), ("contains", self.scalar(d - 1, vs)))
         if r < 0.90:
             x = rng.choice(["x", "y"])
+            if rng.random() < 0.25:
+                # scoping: an inner binding of the same name must not leak into a sibling operand
+                inner = ("as", self.scalar(d - 1, vs + [x]), x, rng.choice([("var", x), ("collect", ("var", x)), self.expr(max(0, d - 2), vs + [x])]))
+                sib = rng.choice([("var", x), ("pipe", ("var", x), ("length",))])
+                pair = rng.choice([(inner, sib), (sib, inner)])
+                shape = rng.choice([("collect", ("union",) + pair), ("union",) + pair, ("add",) + pair, ("eq",) + pair, ("pipe", inner, sib)])
+                return ("as", self.scalar(d - 1, vs), x, shape)
             return ("as", self.scalar(d - 1, vs), x, self.expr(d - 1, vs + [x]))
         if r < 0.94:
             x = rng.choice(["i", "j"])
